@@ -3,6 +3,7 @@ package main
 import (
 	"bytes"
 	"fmt"
+	"os"
 	"path/filepath"
 	"runtime"
 	"sort"
@@ -67,7 +68,7 @@ type c06case struct {
 	ts       time.Time
 	tagW     int
 	minW     int
-	layoutOK bool // message is in the layout-fidelity domain
+	layoutOK bool    // message is in the layout-fidelity domain
 	pc       uintptr // the call site the record is attributed to (one of 320)
 	nilAt    []int   // positions at which the attribute list handed over holds an unused (nil) slot
 }
@@ -98,6 +99,12 @@ func c06gen(r *gen.R, testing bool) c06case {
 		for k := r.Range(1, 3); k > 0; k-- {
 			c.nilAt = append(c.nilAt, r.Range(1, len(c.kvs)-1)) // in the middle of the list
 		}
+	}
+	if r.P(4) {
+		// a value whose MarshalText FAILS with an error text that echoes hostile input: whatever is printed for it, it
+		// contributes no raw escape or control byte
+		t := r.Str(gen.StrOpt{HostilePc: 100})
+		c.kvs = append(c.kvs, gen.KV{Key: "zzfail~", Val: gen.V{Kind: "textmfail", Text: t, Go: gen.TextMFail{S: t}}})
 	}
 	c.ts = r.Time()
 	if r.P(3) {
@@ -275,6 +282,9 @@ func neutralV(v gen.V) gen.V {
 	case "textm":
 		v.Text = neutralS(v.Text)
 		v.Go = gen.TextM{S: v.Text}
+	case "textmfail":
+		v.Text = neutralS(v.Text)
+		v.Go = gen.TextMFail{S: v.Text}
 	case "strs":
 		s := make([]string, len(v.Elems))
 		es := make([]gen.V, len(v.Elems))
@@ -312,6 +322,14 @@ func neutralV(v gen.V) gen.V {
 func c06main(c *Ctx) {
 	registerHostileTitles() // only as attribute VALUES here: a Level value prints its title, a string like any other
 	registerCustomLevels()
+	if c.X("cwdgone", "") == "1" {
+		// the working directory of the process has been removed under it (os.Getwd fails from now on): a record still
+		// names its call site
+		if d, err := os.MkdirTemp("", "c06-gone-*"); err == nil && os.Chdir(d) == nil {
+			_ = os.Remove(d)
+			c.R.Add("processes_whose_working_directory_was_removed", 1)
+		}
+	}
 	if c.X("nocolormode", "") == "1" {
 		// the application's process-wide "--no-color" switch (hedzr/is) is on: whatever a colored record then carries in
 		// the way of escape sequences, it switches off again what it switches on
@@ -403,6 +421,30 @@ func c06main(c *Ctx) {
 					}
 				} else {
 					vs = append(vs, tv{"one-write", "bridge-entry", fmt.Sprintf("expected one Write each, saw %d and %d", len(d1), len(d2))})
+				}
+			}
+			// the same logger through a public entry point, from a statement of the harness: the record ends with THAT call
+			// site, whichever entry point it was (timestamp and attributes of such a record are judged elsewhere)
+			if len(vs) == 0 && cs.caller && idx%4 == 1 {
+				site := c06verbSites[(idx/4)%len(c06verbSites)]
+				saved := slog.Default()
+				if strings.HasPrefix(site.name, "pkg.") {
+					slog.SetDefault(lg)
+				}
+				var pc uintptr
+				ev3 := capture(log, func() { pc = site.call(lg, "via-an-entry-point") })
+				slog.SetDefault(saved)
+				c.R.Add("records_through_a_public_entry_point_judged_for_their_call_site", 1)
+				fr, _ := runtime.CallersFrames([]uintptr{pc}).Next()
+				fn := fr.Function
+				if i := strings.LastIndex(fn, "/"); i >= 0 {
+					fn = fn[i+1:]
+				}
+				wantTail := fmt.Sprintf("%s:%d %s", filepath.Base(fr.File), fr.Line, fn)
+				if len(ev3) != 1 {
+					vs = append(vs, tv{"one-write", "entry-point", fmt.Sprintf("%s: expected one Write, saw %d", site.name, len(ev3))})
+				} else if first := strings.SplitN(string(oracle.StripANSI(ev3[0].Data)), "\n", 2)[0]; !strings.HasSuffix(strings.TrimRight(first, " "), wantTail) {
+					vs = append(vs, tv{"layout-caller", "entry-point/" + site.name, fmt.Sprintf("a record issued through %s does not end with its call site %s: %q", site.name, wantTail, clip(first, 300))})
 				}
 			}
 			return payload, vs
@@ -649,6 +691,9 @@ func c06check(payload []byte, cs c06case, testing bool) (out []tv) {
 			}
 			if l.Key == "time" && l.Val.Kind == "time" {
 				continue // printed in the record's timestamp layout; which layout is not part of this property
+			}
+			if l.Val.Kind == "textmfail" {
+				continue // a marshaller that failed has no value to compare; what it may NOT do is judged by the escape/control skeleton
 			}
 			if ok, why := match.Text(p, l.Val, true); !ok {
 				out = append(out, tv{"layout-value", valueClass(l.Val), fmt.Sprintf("%s: %s", clip(p.Key, 60), why)})
